@@ -265,7 +265,7 @@ func runC03(r *ev.Run) {
 	r.Evals.Store(pairs.Load())
 	r.Nontrivial.Store(illegal.Load() + nulls.Load() + special.Load())
 	r.Set("distinct_outcomes", map[string]int64{"illegal_pseudo_legal_pairs": illegal.Load(), "null_move_pairs": nulls.Load(), "castling_promotion_enpassant_pairs": special.Load()})
-	r.Set("rule", "explicit-state DFS whose transitions are the real MakeMove/MakeNullMove: at every node of the trees below the root corpus (plus half-move-clock variants 63/64/99/100) and of every position of the listed classes, every generated pseudo-legal move and the null move is made, nested below legal ones, undone, and the deep snapshot (three placement encodings, side, rights, ep, both counters, whole hash history) compared; non-trivial = illegal pseudo-legal, null, castling/promotion/en-passant pairs")
+	r.Set("rule", "explicit-state DFS whose transitions are the real MakeMove/MakeNullMove: at every node of the trees below the root corpus (plus half-move-clock variants 63/64/99/100) and of every position of the listed classes, every generated pseudo-legal move and the null move is made, nested below legal ones, undone (plus lines of 170-400 plies made and unwound completely), and the deep snapshot (three placement encodings, side, rights, ep, both counters, whole hash history) compared; non-trivial = illegal pseudo-legal, null, castling/promotion/en-passant pairs")
 	r.Assume("snapshot taken through the verif hook board.VerifSnapshotInto")
 }
 
